@@ -24,7 +24,7 @@ Definition k_mem (c : cont) : Z := snd c.
 Definition exc_code (e : exc) : Z :=
   match e with
   | FileNotFound => 1 | IsADirectory => 2 | NotADirectory => 3 | FileExists => 4
-  | MemoryErr => 5 | AssertionErr => 6 | KeyErr => 7
+  | MemoryErr => 5 | AssertionErr => 6 | KeyErr => 7 | IOErr => 8 | DataErr => 9
   end.
 
 Definition sx_name (n : name) : sx := sx_zs n.
@@ -41,6 +41,13 @@ Definition op_of_sx (x : sx) : option (op cont) :=
   | SL [SS t; SL n; SL [SZ i; SZ l; SZ m]; SZ tm; SL ch] =>
       if is_tag "set" t then
         match sx_get_zs n, names_of_sx ch with Some n', Some ch' => Some (OSet n' (i, l, m) tm ch') | _, _ => None end
+      else None
+  | SL [SS t; SL n; SZ tm; SL ch; SZ code] =>
+      if is_tag "getfault" t then
+        match sx_get_zs n, names_of_sx ch with
+        | Some n', Some ch' => Some (OGetFault n' tm ch' (if Z.eqb code 9 then DataErr else IOErr))
+        | _, _ => None
+        end
       else None
   | SL [SS t; SL n; SZ tm; SL ch] =>
       if is_tag "get" t then
